@@ -215,3 +215,23 @@ def _mk_along(tag, is_end, note):
 
 _mk_along("akai", "w == 0xC000", "AKAI: the end marker is the word 0xC000")
 _mk_along("roland", "w >= 0xfff8", "Roland: every word >= 0xfff8 ends a chain")
+
+
+@contract("smpl_extract.util.fat:add_to_sector_links#walk", abstract=True, assumed=False,
+          note="a SUBSET of the clauses proved for add_to_sector_links above (functional walk, last is end, frame, table length, error condition): "
+               "used by the decoder exactness proofs so that the clauses they do not need are not handed to the solver")
+def _add_links_walk(c):
+    c.param("links_arg", ("list", "int"))
+    c.param("sector_links", LINKS)
+    c.requires("len(links_arg) >= 1", "non-empty")
+    c.requires("forall(0, len(links_arg), lambda k: links_arg[k] >= 0)", "links-unsigned")
+    c.define("functional", ["xs"], "forall(0, len(xs) - 1, lambda a: xs[a] != xs[len(xs) - 1] and "
+             "forall(0, len(xs) - 1, lambda b: implies(xs[a] == xs[b], xs[a + 1] == xs[b + 1])))")
+    c.ensures("len(sector_links) == old(len(sector_links))")
+    c.ensures("implies(functional(links_arg), forall(0, len(links_arg) - 1, lambda k: sector_links[links_arg[k]].next == links_arg[k+1] "
+              "and not sector_links[links_arg[k]].end))")
+    c.ensures("sector_links[links_arg[len(links_arg)-1]].end")
+    c.ensures("forall(0, len(sector_links), lambda s: implies(forall(0, len(links_arg), lambda k: links_arg[k] != s), "
+              "sector_links[s].next == old(sector_links)[s].next and sector_links[s].end == old(sector_links)[s].end))")
+    c.raises("InvalidFatDefinition", "exists(0, len(links_arg), lambda k: links_arg[k] >= len(sector_links))", iff=True)
+    c.modifies("sector_links")
